@@ -265,7 +265,7 @@ def run(tier, seed):
     if tier == "quick":
         nruns, execs, ops = 8, 10, 8
     else:
-        nruns, execs, ops = 36, 16, 10
+        nruns, execs, ops = 60, 20, 10
     tjobs = []
     for i in range(nruns):
         tjobs.append((i, seed * 1000 + i, i % 3, [2, 3, 1][(i // 3) % 3], 2 + (i // 9 + i) % 3, execs, ops, drv))
